@@ -58,3 +58,11 @@ func init() {
 		Rule: common + "C19: the metrics middleware alone or between deterministic limit middlewares, 1-4 concurrent sessions, sessions ending by cancel / close-inbound with subscriptions open; Gather() is compared with the harness truth at every sync point, at the end of the scripts and after all sessions ended. The subscription gauge is judged against all linearizations of REQ/CLOSE (client side) and CLOSED (server side) consistent with the stamped intervals.",
 		Assumptions: []string{"counters and the subscription gauge are compared only at quiescent points where no reader is stalled and no session is being torn down; the connection gauge always"}}
 }
+
+func init() {
+	props["C06"] = propCfg{Level: "exploration", QuickS: 45, ThoroughS: 600,
+		Components: []string{"handler/sqlite: Migrate, insertEvents, queryEvent/buildEventQuery, NewSQLiteHandler with its bulk inserter (instrumented)", "database/sql, mattn/go-sqlite3 + SQLite (real; in-memory shared-cache and file databases, journal DELETE/WAL)", "doug-martin/goqu"},
+		Stubs:      []string{"clients (1-3 scripted sessions in handler mode)", "goroutine scheduler (cooperative, seeded; decides how concurrent sessions' events are split into batches)", "wall clock (bulk-insert ticker driven by explicit clock advances)"},
+		Rule:       "rapid draws a pool of 2-10 events (all classes, deletion requests before/after their targets, 3-element tags, arbitrary Unicode content and tag values, tag names differing only in case), a history of 1-5 (quick) / 1-10 (thorough) batches (any split, duplicates, the same event in several batches) inserted directly or through 1-3 concurrent handler sessions with bulk size 1-3, database flavour (memory/file, DELETE/WAL, 1-3 connections, xxhash seed) and after every batch 1-4 filter lists (limit 0/1, empty lists, several #x, overlapping filters), half of them through REQ on a session. The match-everything answer is judged against the specification set built from the statement, every other answer against it with the tie-tolerant answer checker, all seven fields compared. Non-trivial: at least two distinct events inserted; distinct = distinct case hash.",
+		Assumptions: []string{"equal-timestamp versions of one address: either may be kept", "address references to replaceable events and to versions newer than the deletion request are left open", "addressable events without d tag are not constrained", "64-bit key collisions under the drawn xxhash seed are not excluded (probability ~1e-8 per run) and would surface as a violation to be inspected"}}
+}
